@@ -39,19 +39,19 @@ var properties = map[string]*propDef{
 		NotDecided:  "the search in ScaleNote.GetDegree and the letter distance in Name.GetDegree over the 12,936-case product: that is an enumeration over runtime values, nothing sound can be said about it statically with the tools in reach. Most signature-row corruptions do not affect this property at all (only the tonic's accidental matters); they are C13's business.",
 	},
 	"C04": {
-		Rules:       []string{"GEN-YACC", "TOKENS", "LEXMODE", "PARSEERR", "EOFPRED", "UNDERSCORE", "ERRDROP"},
+		Rules:       []string{"GEN-YACC", "TOKENS", "LEXMODE", "PARSEERR", "EOFPRED", "UNDERSCORE", "ERRDROP", "ERRFLOW"},
 		Technique:   "goyacc regeneration with AST comparison, token-set agreement between grammar and lexer, lexer-mode typestate on SSA, the lexer's rune -> token decision and digit class by folding ScanFunc / scanDigits with Peek() bound to probe runes, constant folding of loop predicates at EOF",
 		Explanation: "the shipped parser is AST-equal to what goyacc generates from chords.y and the grammar has 0 conflicts (so, trusting goyacc, it accepts exactly L(chords.y) over token strings); every terminal the rules use is produced by the lexer and nothing undeclared is; white space is discarded before every token, `;` skips to end of line, `{`/`}` and `_` switch the lexer modes and the modes are cleared again; a parser failure cannot be swallowed: parseText returns the lexer's error and every caller tests it before touching the tree (default reductions may store a result for a text that is then rejected); every lexer loop predicate is false at end of input, so a text cut inside a symbol, comment or metadata run terminates and is rejected; the grammar actions list each field from the right position.",
 		NotDecided:  "that the rune classes of scanSymbol / scanMetadata match an external description (the code is the documentation there); bounded-exhaustive acceptance against an independent recogniser.",
 	},
 	"C05": {
-		Rules:       []string{"CONVORDER", "CLASSIFY", "APPLY", "PLAYLOOP", "OPT", "TAB-KEYSIG", "SCALEWIRE", "TAB-NOTE", "WIRE", "NAMEDEGREE"},
+		Rules:       []string{"CONVORDER", "CLASSIFY", "APPLY", "PLAYLOOP", "OPT", "TAB-KEYSIG", "SCALEWIRE", "TAB-NOTE", "OVERRIDE", "WIRE", "NAMEDEGREE"},
 		Technique:   techPath + ": call ordering in ASTConverter.Convert, linearity of Key.Apply in the tonic",
 		Explanation: "a `{key=...}` change is applied (metadata -> instance -> scale switch) before the carrying chord is converted, for chords and for rests, with every error returned, and the new scale persists (pointer receiver); mixed notation is refused before anything is converted; the second sentence restricted to pitches: in Key.Apply the tonic has coefficient 1 in every emitted pitch and occurs nowhere else, so changing the key shifts every pitch by the tonic distance; the only other key-dependent output is the key-signature event.",
 		NotDecided:  "the first sentence as stated: equality of the two converters' outputs over all progressions is a relation between two computations over runtime values.",
 	},
 	"C06": {
-		Rules:       []string{"OWN", "TRACKADD", "PENDING", "SELECT", "TRACKCOUNT", "OPMAP", "FLAGS", "WIRE"},
+		Rules:       []string{"OWN", "TRACKADD", "PENDING", "SELECT", "TRACKCOUNT", "OPMAP", "NOTE", "NARROW", "FLAGS", "WIRE"},
 		Technique:   techPath + ": ownership of *TrackOp, read-before-mutate ordering, selector range",
 		Explanation: "the premises of the invariant `track clock + pending = global clock`: a *TrackOp is never delivered twice (no Add inside a loop with an op created outside it); TrackSet.Add reads the op's delta before Track.Add rewrites it and adds it to every other track; the writer attaches the true elapsed time to every op, Close included; the selector sends metas to track 0 and the i-th note to i mod (N-1) + 1, N >= 1 enforced, selector and track set built from the same N; all N tracks are serialised; --track is a persistent flag visible on every write subcommand.",
 		NotDecided:  "the invariant itself as a statement about all histories (it would need an inductive proof over heap state); only the premises a hand proof uses are checked.",
@@ -117,7 +117,7 @@ var properties = map[string]*propDef{
 		NotDecided:  "that GenerateAttributes computes the list (its tables and loop bounds are checked and the file is compared with an independent generator, the function itself is not evaluated).",
 	},
 	"C17": {
-		Rules:       []string{"TAB-DIATONIC", "TAB-LEXNAMES", "TAB-CHORDS", "TAB-KEYSIG", "SCALEWIRE", "TAB-NOTE", "TAB-DEGREE", "APPLY", "EXTENDS", "WIRE"},
+		Rules:       []string{"TAB-DIATONIC", "TAB-LEXNAMES", "TAB-CHORDS", "TAB-KEYSIG", "SCALEWIRE", "TAB-NOTE", "TAB-DEGREE", "APPLY", "EXTENDS", "OPT", "WIRE"},
 		Technique:   techTab + ": diatonic name tables against stacked thirds through chord.yml; printed names against the lexer's rune tables",
 		Explanation: "for each mode and degree the chord named in the table, resolved through chord.yml, has exactly the pitch set of thirds stacked on that degree of the derived scale (right qualities, only scale tones, for all 28 keys because the specification is transposition invariant and TAB-KEYSIG ties each key to its derived scale); names are paired with scale notes by index; every printed chord lexes back as SYLLABLE [accidental] SYMBOL, with `_` exactly where a digit would otherwise lex as NUMBER.",
 		NotDecided:  "the end-to-end pipe `text conv | write` as an execution.",
@@ -137,7 +137,7 @@ var wireScope = map[string][]string{
 	"C11": {"input/ast.NewToken", "astconv.SyllableChordConverter.newScaleNote", "astconv.DegreeChordConverter.", "astconv.SyllableChordConverter.Convert", "astconv.ValuesConverterImpl.", "cmd.infoCmdChordDescribe.RunE"},
 	"C13": {"op.Scale.", "op.ScaleNote.Semitone", "op.Key.Semitone", "desc.Key.Describe", "cmd.getScale", "cmd.infoKeyCmdDescribe"},
 	"C14": {"cmd.infoKeyCmdConv", "cmd.getScale"},
-	"C15": {"input.ChordMetaTextMotifier", "note.Note.AddDegree", "note.ParseDegree", "note.NewDegree", "note.Note.Semitone", "chord.Attribute.Semitone", "desc.Attribute.Describe", "cmd.infoCmdAttrDescribe", "cmd.getRootNote", "chord.Map.GetAttribute", "chord.GenerateAttributes"},
+	"C15": {"desc.Chord.Describe", "cmd.infoCmdChordDescribe", "input.ChordMetaTextMotifier", "note.Note.AddDegree", "note.ParseDegree", "note.NewDegree", "note.Note.Semitone", "chord.Attribute.Semitone", "desc.Attribute.Describe", "cmd.infoCmdAttrDescribe", "cmd.getRootNote", "chord.Map.GetAttribute", "chord.GenerateAttributes"},
 	"C16": {"cmd.genCmdAttr", "chord.", "desc.Chord.Describe", "desc.Attribute.Describe", "cmd.infoCmdChordDescribe", "cmd.newChordMap"},
 	"C17": {"astconv.SyllableChordConverter.", "op.ScaleNote.GetDegree", "desc.Key.Describe", "op.DiatonicChorderImpl.", "cmd.infoKeyCmdDescribe", "op.Scale.", "op.ScaleNote.Semitone", "cmd.getScale", "chord.Map."},
 }
@@ -146,7 +146,8 @@ var wireScope = map[string][]string{
 var otherScope = map[string]map[string][]string{
 	// the 4-byte limit of a delta time is a matter of file well-formedness (C08); C02 is stated below 2^28 ticks
 	"C02": {"TRACKCOUNT": {"!midix|delta"}},
-	"C06": {"TRACKCOUNT": {"!midix|delta"}, "OPMAP": {"midix.Close.Call", "midix.MIDIWriter.Close", "midix.TrackOp.Call", "midix.Track.Apply"}},
+	// a track's clock must hold any piece's length: the integer types ticks are kept in (NARROW)
+	"C06": {"TRACKCOUNT": {"!midix|delta"}, "OPMAP": {"midix.Close.Call", "midix.MIDIWriter.Close", "midix.TrackOp.Call", "midix.Track.Apply"}, "NARROW": {"*Ticks", "*uint16", "*int32", "*int16"}},
 	// a log line or any other print on stdout lands in front of the MIDI bytes when the file goes to stdout
 	"C08": {"IOLAYER": {"*|os.Stdout", "*|fmt.Print", "*|cobra.Out"}},
 	// the search over the interval table ranges over a map: it is deterministic only while exactly one row qualifies
@@ -154,9 +155,14 @@ var otherScope = map[string]map[string][]string{
 	// ... and what `write` demands of a chord is no more than what the printers can produce (a degree that has a size)
 	"C10": {"OPT": {"play.midiArgs.writeWhenUpdated|meta"}, "LOOKUP": {"cmd.newWriteCmdArgsFromInputInstances|degree-present"}},
 	// the same tokens on one long line or on several lines: nothing may be cut silently
-	"C04": {"ERRDROP": {"*bufio.Scanner", "cmd.parseText"}},
+	// ... and the verdict of the parser must reach the exit status on every input path (stdin, `-`, FILE)
+	"C04": {"ERRDROP": {"*bufio.Scanner", "cmd.parseText"}, "ERRFLOW": {"cmd.readFileOrStdin", "cmd.parseText", "cmd.textCmd"}},
 	"C11": {"ERRDROP": {"*bufio.Scanner"}},
 	"C16": {"REJECT": {"chord."}},
+	// playable in every key: the key signature event is written for every key that has a scale
+	"C17": {"OPT": {"play.midiArgs.writeWhenUpdated|key"}},
+	// the key the piece is played in: --key, when given, is the key of the first instance
+	"C05": {"OVERRIDE": {"cmd.getKey", "cmd.overrideInstanceFromFlags|Key", "cmd.overrideInstanceFromFlags|handed-back", "cmd.overrideInstanceFromFlags|getters"}},
 	// pitch arithmetic: the integer types pitches, intervals and note numbers are computed in
 	"C01": {"NARROW": {"*Semitone", "*MIDINoteNumber", "*Octave", "*note.Degree", "narrow|int->uint"}},
 	"C12": {"TAB-DEGREE": {"note.Degree.simpleSemitone|adjust", "note.Degree|adjust", "note.Degree.Semitone|order"}},
